@@ -1,7 +1,7 @@
 """C20 — the protocol core is deterministic and driven only by its inputs.
 
 Three ties, run on every invocation:
-  * `sim_c20_v1..v4` (comps/sim_c20.py) / coq/Sys/MonC20.v: twin runs of the REAL endpoints (identical replay, all instants shifted, spurious
+  * `sim_c20_v1..v5` (comps/sim_c20.py) / coq/Sys/MonC20.v: twin runs of the REAL endpoints (identical replay, all instants shifted, spurious
     calls + early wake-ups, late timers) compared record by record; per-run settle / drained-silent rules;
   * `timer_table` / coq/Model/TimerTable.v: exact correspondence of the model of `TimerTable` with the real one
     (hook quinn-proto/src/connection/verif_hooks/timer.rs) + oracle next_timeout = min of armed;
@@ -270,6 +270,8 @@ SPEC = {
         {"comp": "sim_c20_v2", "module": "QV.Sys.MonC20", "quick": 32, "thorough": 600},
         {"comp": "sim_c20_v3", "module": "QV.Sys.MonC20", "quick": 40, "thorough": 800},
         {"comp": "sim_c20_v4", "module": "QV.Sys.MonC20", "quick": 24, "thorough": 400},
+        {"comp": "sim_c20_v5", "module": "QV.Sys.MonC20", "quick": 16, "thorough": 300},
+        {"comp": "sim_c20_cot", "module": "QV.Sys.MonC20", "quick": 16, "thorough": 300},
     ],
     "extra": [ambient_inventory],
     "assumptions": [
